@@ -250,23 +250,31 @@ def hi_bound(x, stop):
     return x[len(x) - 1] if stop is None else stop
 
 
+def sbv_first(x, start):
+    return 0 if start is None else index_of(x, start)
+
+
+def sbv_end(x, stop):
+    return len(x) if stop is None else index_of(x, stop) + 1
+
+
 @ensures(W + '.slice_by_value')
 def sbv_post(self, start, stop, step, result):
-    """precisely the samples with start <= x <= stop (every step-th of them); an omitted bound is the respective end"""
-    return exists(range(len(self.x) + 1), lambda a: exists(range(len(self.x) + 1), lambda b:
-                  a <= b
-                  # [a, b) is exactly the index range of the samples inside [start, stop]
-                  and forall(range(len(self.x)), lambda i:
-                             iff(a <= i and i < b, lo_bound(self.x, start) <= self.x[i] and self.x[i] <= hi_bound(self.x, stop)))
-                  and len(result[0]) == (b - a + step - 1) // step and len(result[1]) == len(result[0])
-                  and forall(range(len(result[0])), lambda i: result[0][i] == self.x[a + i * step]
-                             and result[1][i] == self.y[a + i * step])))
+    """precisely the samples with start <= x <= stop (every step-th of them); an omitted bound is the respective end.
+    [a, b) with a = position of `start`, b = position of `stop` + 1 is exactly the index range of those samples."""
+    return (forall(range(len(self.x)), lambda i:
+                   iff(sbv_first(self.x, start) <= i and i < sbv_end(self.x, stop),
+                       lo_bound(self.x, start) <= self.x[i] and self.x[i] <= hi_bound(self.x, stop)))
+            and len(result[0]) == (max(sbv_end(self.x, stop) - sbv_first(self.x, start), 0) + step - 1) // step
+            and len(result[1]) == len(result[0])
+            and forall(range(len(result[0])), lambda i: result[0][i] == self.x[sbv_first(self.x, start) + i * step]
+                       and result[1][i] == self.y[sbv_first(self.x, start) + i * step]))
 
 
 # --------------------------------------------------------------------------- interpolate
 
 contract(W + '.interpolate', params=dict(self=Obj(W), n=Opt(Int), new_x=Opt(Seq(Real, kind='arraylike')), method=Str,
-                                         kwargs=Kwargs), modifies=['self'])
+                                         kwargs=Kwargs), modifies=['self'], generator='gen_interpolate')
 
 
 @requires(W + '.interpolate')
@@ -508,7 +516,7 @@ def tbi_sync(self, start, stop, result):
 # --------------------------------------------------------------------- truncate_by_value
 
 contract(W + '.truncate_by_value', params=dict(self=Obj(W), x_left=Real, x_right=Real, x_left_as_ratio=Bool,
-                                               x_right_as_ratio=Bool), modifies=['self'])
+                                               x_right_as_ratio=Bool), modifies=['self'], generator='gen_tbv')
 
 
 def bound(x, v, as_ratio):
@@ -570,3 +578,56 @@ def normalize_x_entry(self, min_val, max_val):
 @hint(W + '.normalize_y', when='entry')
 def normalize_y_entry(self, min_val, max_val):
     return MINMAX_EXT(self.y, self.reference_y, len(self.y))
+
+
+# ------------------------------------------------------------------ run-time generators (bounded stand-in only)
+
+def gen_tbv(rnd):
+    """truncate_by_value after histories in which working and reference series span different ranges"""
+    from contracts import _histories as H
+    import numpy as np
+    for _ in range(50):
+        w = H.gen_weaver(rnd, max_ops=1)
+        r = dict(w.__verif_repr__()["__history__"])
+        ops = list(r["ops"])
+        if rnd.random() < 0.7:
+            ops += [["recreate_from_average", dict(n=rnd.randint(2, 4), rfa_class="PiecewiseConstantRFA")],
+                    ["repeat", dict(n=rnd.randint(1, 3))]]
+        try:
+            w = H.build({"__history__": dict(r, ops=ops)})
+        except Exception:
+            continue
+        x = np.asarray(w.get()[0], dtype=float)
+        if len(x) > 80:
+            continue
+        span, x0 = x[-1] - x[0], x[0]
+        mode = rnd.random()
+        if mode < 0.5:
+            rho = rnd.choice([0.0, 0.25, 0.3, 0.5, 0.75, 0.9])
+            v = x0 + rho * span + rnd.choice([-0.5, 0.01, 0.1, 0.25, 0.5, 1.0])
+            return dict(self=w, x_left=rho, x_right=float(v), x_left_as_ratio=True, x_right_as_ratio=False)
+        if mode < 0.75:
+            a, b = sorted([rnd.random(), rnd.random()])
+            return dict(self=w, x_left=a, x_right=b, x_left_as_ratio=True, x_right_as_ratio=True)
+        a, b = rnd.choice(list(x)), rnd.choice(list(x))
+        return dict(self=w, x_left=float(a), x_right=float(b), x_left_as_ratio=False, x_right_as_ratio=False)
+    raise NotImplementedError("gen_tbv")
+
+
+def gen_interpolate(rnd):
+    from contracts import _histories as H
+    import numpy as np
+    w = H.gen_weaver(rnd, max_ops=2)
+    x = np.asarray(w.get()[0], dtype=float)
+    method = rnd.choice(['linear', 'constant', 'cubic', 'spline', 'linear', 'bogus'])
+    mode = rnd.random()
+    if mode < 0.4:
+        return dict(self=w, n=rnd.choice([2, 3, 5, 8]), new_x=None, method=method, kwargs={})
+    if mode < 0.5:
+        return dict(self=w, n=None, new_x=None, method=method, kwargs={})
+    inner = sorted(set(float(v) for v in np.round(np.random.RandomState(rnd.randint(0, 10**6)).uniform(x[0], x[-1], rnd.randint(0, 5)), 2)
+                       if x[0] < v < x[-1]))
+    grid = [float(x[0])] + inner + [float(x[-1])]
+    if rnd.random() < 0.2:
+        grid[-1] += 1.0
+    return dict(self=w, n=None, new_x=(grid if rnd.random() < 0.5 else np.array(grid)), method=method, kwargs={})
